@@ -212,7 +212,18 @@ def run(tier, seed, replay=None):
             return None
         return env.run_native(exe)
     for pr in {id(v[0]): v[0] for v in runnable}.values():
-        base_out[pr["name"]] = build_run(pr["path"])
+        r1 = build_run(pr["path"])
+        # only programs whose own behaviour is a function of their text take part: one shipped program prints random
+        # numbers (seeded by the clock), another one reads input. Such programs are recognised by what they import or
+        # call, and as a second line of defence the unmodified program is run twice
+        with open(pr["path"]) as fh:
+            src_text = fh.read()
+        again = build_run(pr["path"])
+        if re.search(r'import\s+"random"|\brandom::|io::Read|\btime::', src_text) or \
+                (r1 is not None and again is not None and (r1["cls"], r1["out"]) != (again["cls"], again["out"])):
+            r1 = None
+            chk.cov["programs_with_nondeterministic_output_skipped"] = chk.cov.get("programs_with_nondeterministic_output_skipped", 0) + 1
+        base_out[pr["name"]] = r1
     n_run = 0
     for (pr, gi, ti, path), r2 in zip(runnable, core.pmap(lambda v: build_run(v[3]), runnable, workers=12)):
         r1 = base_out.get(pr["name"])
